@@ -12,3 +12,32 @@ package cmd
 //@ func getCommitMessage
 //@ assert before Command#1 len(historyArgs) == 6 && historyArgs[0] == "log" && historyArgs[1] == "--pretty=format:[%h] %aN %ad %s" &&
 //@    historyArgs[2] == "--date=short" && historyArgs[3] == "--numstat" && historyArgs[4] == "--reverse" && historyArgs[5] == "--summary"
+
+// ---- C16: one counter run per subdirectory that is not a VCS / IDE / report directory, each configured for that
+// directory alone and writing the report file whose name decodes back to the directory
+
+//@ spec rec NKept(dirs []string, n int) int := n <= 0 ? 0 : NKept(dirs, n - 1) + (Ignored(PathBase(dirs[n - 1])) ? 0 : 1)
+//@ axiom NKept_range: forall dirs []string, n int :: {NKept(dirs, n)} n >= 0 ==> 0 <= NKept(dirs, n) && NKept(dirs, n) <= n
+//@ spec OutFile(rp string, b string) string := rp + "/cloc/" + b + ".json"
+
+//@ func processDirs
+//@ modifies processor.DirFilePaths
+//@ modifies processor.FileOutput
+//@ ensures len(result) == NKept(dirs, len(dirs))
+//@ ensures forall i int :: {dirs[i]} 0 <= i && i < len(dirs) && !Ignored(PathBase(dirs[i])) ==> NKept(dirs, i) < len(result) && result[NKept(dirs, i)] == OutFile((*config.CocaConfig).ReporterPath, PathBase(dirs[i]))
+//@ ensures forall i int :: {dirs[i]} 0 <= i && i < len(dirs) && !Ignored(PathBase(dirs[i])) && PathBase(dirs[i]) != "/" ==> Dir(result[NKept(dirs, i)]) == PathBase(dirs[i])
+//@ assert before runProcessor#1 len(processor.DirFilePaths) == 1 && processor.DirFilePaths[0] == dir && processor.FileOutput == outputFile
+//@ assert before runProcessor#1 baseName != "/" ==> TrimSuffix(PathBase(outputFile), PathExt(outputFile)) == baseName
+//@ loop 1 invariant len(outputFiles) == NKept(dirs, #i)
+//@ loop 1 invariant forall i int :: {dirs[i]} 0 <= i && i < #i && !Ignored(PathBase(dirs[i])) && PathBase(dirs[i]) != "/" ==> Dir(outputFiles[NKept(dirs, i)]) == PathBase(dirs[i])
+//@ loop 1 invariant forall i int :: {dirs[i]} 0 <= i && i < #i && !Ignored(PathBase(dirs[i])) ==> NKept(dirs, i) < len(outputFiles) && outputFiles[NKept(dirs, i)] == OutFile((*config.CocaConfig).ReporterPath, PathBase(dirs[i]))
+
+// the table written for `coca cloc DIR --by-directory`: its data rows name exactly the subdirectories that are not ignored, each once
+//@ func processByDirectory
+//@ modifies processor.DirFilePaths
+//@ modifies processor.FileOutput
+//@ modifies processor.Format
+//@ assert before WriteToCsv#1 forall i int :: {dirs[i]} 0 <= i && i < len(dirs) && !Ignored(PathBase(dirs[i])) && PathBase(dirs[i]) != "/" ==> (exists r int :: 1 <= r && r < len(toCsv) && toCsv[r][0] == PathBase(dirs[i]))
+//@ assert before WriteToCsv#1 forall r int :: {toCsv[r]} 1 <= r && r < len(toCsv) ==> FileDirIn(outputFiles, len(outputFiles), toCsv[r][0])
+//@ assert before WriteToCsv#1 len(outputFiles) == NKept(dirs, len(dirs))
+//@ assert before WriteToCsv#1 forall r1 int, r2 int :: {toCsv[r1], toCsv[r2]} 1 <= r1 && r1 < r2 && r2 < len(toCsv) ==> toCsv[r1][0] != toCsv[r2][0]
